@@ -187,7 +187,11 @@ def step1 (fo : FloatOps) (fuel : Nat) (s : St) (op : Json) : E (St × Json) := 
     let r ← reg "h"
     let h ← s.get r
     let o ← s.get (← reg "o")
-    refusable do pure (s.set r (← h.iadd fo o), Json.str "ok")
+    match h.iadd fo o with
+    | .ok h' => pure (s.set r h', Json.str "ok")
+    | .error e =>
+      pure (if e == "different widths" || e == "different shifts" then s.set r (h.coerce o.dtype) else s,
+            Json.str "REFUSED")
   | "add" =>
     let a ← s.get (← reg "a")
     let b ← s.get (← reg "b")
@@ -201,7 +205,11 @@ def step1 (fo : FloatOps) (fuel : Nat) (s : St) (op : Json) : E (St × Json) := 
     let h ← s.get r
     let o ← s.get (← reg "o")
     let free := getBoolD op "free" false
-    refusable do pure (s.set r (← if free then h.isubFree fo o else h.isub fo o), Json.str "ok")
+    match (if free then h.isubFree fo o else h.isub fo o) with
+    | .ok h' => pure (s.set r h', Json.str "ok")
+    | .error e =>
+      pure (if e == "negative frequencies" || e == "shape changed" then s.set r (h.coerce o.dtype) else s,
+            Json.str "REFUSED")
   | "sub" =>
     let a ← s.get (← reg "a")
     let b ← s.get (← reg "b")
@@ -214,19 +222,28 @@ def step1 (fo : FloatOps) (fuel : Nat) (s : St) (op : Json) : E (St × Json) := 
     let c ← getRat (← field op "c")
     let k ← getNumKind (← field op "k")
     let out ← if name == "imul" then pure r else reg "out"
-    refusable do pure (s.set out (← h.imul c k), Json.str "ok")
+    match h.imul c k with
+    | .ok h' => pure (s.set out h', Json.str "ok")
+    | .error _ =>
+      -- in place: the dtype was already promoted (losslessly) when the call was refused
+      pure (if name == "imul" then s.set r (h.coerce k.dtype) else s, Json.str "REFUSED")
   | "idiv" | "div" =>
     let r ← reg "h"
     let h ← s.get r
     let c ← getRat (← field op "c")
     let out ← if name == "idiv" then pure r else reg "out"
-    refusable do pure (s.set out (← h.idiv c), Json.str "ok")
+    match h.idiv c with
+    | .ok h' => pure (s.set out h', Json.str "ok")
+    | .error _ =>
+      pure (if name == "idiv" && c != 0 then s.set r (h.coerce .f64) else s, Json.str "REFUSED")
   | "normalize" =>
     let r ← reg "h"
     let h ← s.get r
     let inplace := getBoolD op "inplace" false
     let out ← if inplace then pure r else reg "out"
-    refusable do pure (s.set out (← h.normalize inplace (getBoolD op "percent" false)), Json.str "ok")
+    match h.normalize inplace (getBoolD op "percent" false) with
+    | .ok h' => pure (s.set out h', Json.str "ok")
+    | .error _ => pure (if inplace && h.total != 0 then s.set r (h.coerce .f64) else s, Json.str "REFUSED")
   | "invalid" => pure (s, Json.str "REFUSED")
   | "sum" =>
     let hs ← getList (fun x => x.getNat?) (← field op "hs")
@@ -296,7 +313,10 @@ def runHist1 (fo : FloatOps) (case : Json) : E Json := do
   let mut s : St := {}
   let mut outs : Array Json := #[]
   for op in ops do
-    let (s', ret) ← step1 fo fuel s op
+    -- an op on a register whose creation was refused is itself refused (nothing changes)
+    let (s', ret) ← match step1 fo fuel s op with
+      | .ok x => pure x
+      | .error e => if e.startsWith "register" then pure (s, Json.str "REFUSED") else throw e
     s := s'
     let regs := s.regs.map fun r => match r with
       | none => Json.null
@@ -304,11 +324,20 @@ def runHist1 (fo : FloatOps) (case : Json) : E Json := do
     outs := outs.push (Json.mkObj [("ret", ret), ("regs", Json.arr regs)])
   pure (Json.arr outs)
 
+/-- the model's promotion / castability tables, for the exhaustive comparison with numpy -/
+def runTables : Json :=
+  let names := DType.all
+  let tbl (f : DType → DType → Json) : Json :=
+    Json.mkObj (names.map fun a => (a.name, Json.mkObj (names.map fun b => (b.name, f a b))))
+  Json.mkObj [("promote", tbl fun a b => Json.str (a.promote b).name),
+              ("can_cast", tbl fun a b => Json.bool (a.canCast b))]
+
 def runCase (case : Json) : E Json := do
   let kind ← (← field case "kind").getStr?
   let fo := if getBoolD case "exact" false then FloatOps.exact else FloatOps.ieee
   match kind with
   | "hist1" => runHist1 fo case
+  | "tables" => pure runTables
   | _ => throw s!"unknown kind {kind}"
 
 def handleLine (line : String) : String :=
